@@ -41,7 +41,7 @@ func (r *symlinkResolver) append(p string) error {
 			p = absParts[1]
 		}
 	}
-	p = filepath.Join(".", p)
+	p = filepath.Join(".", filepath.Join(string(filepath.Separator), p))
 	current := "."
 	for {
 		parts := strings.SplitN(p, string(filepath.Separator), 2)
